@@ -631,3 +631,45 @@ package compiler
 //@ func RemoveIntersections.processObject
 //@   property C04
 //@   binds maps: r.objectsToRemove != nil && r.arraysToFix != nil
+//
+// hint_object: the selected object gets every configured hint (an existing hint of the same name is
+// replaced), keeps every other hint, its name, self reference, comments and the rest of its type; any other
+// object is returned as it was and its hints are not touched.
+//@ func (*HintObject).processObject
+//@   property C15
+//@   requires pass != nil
+//@   requires hints: object.Type.Hints != nil
+//@   requires sep: pass.Hints == nil || pass.Hints != object.Type.Hints
+//@   modifies object.Type.Hints[*], spare-capacity
+//@   ensures  noerr: result.1 == nil
+//@   ensures  untouched: !objMatch(pass.Object, object) ==> result.0 == object && (forall h: string :: object.Type.Hints.has(h) == old(object.Type.Hints.has(h)) && object.Type.Hints[h] == old(object.Type.Hints[h]))
+//@   ensures  kept: result.0.Name == object.Name && result.0.SelfRef == object.SelfRef && result.0.Comments == object.Comments && result.0.Type == object.Type
+//@   ensures  set: objMatch(pass.Object, object) ==> (forall h: string :: pass.Hints.has(h) ==> object.Type.Hints.has(h) && object.Type.Hints[h] == pass.Hints[h])
+//@   ensures  others: objMatch(pass.Object, object) ==> (forall h: string :: !pass.Hints.has(h) ==> object.Type.Hints.has(h) == old(object.Type.Hints.has(h)) && object.Type.Hints[h] == old(object.Type.Hints[h]))
+//@   loop 0:
+//@     invariant trail: base(hintsTrail) != 0 && fresh(hintsTrail)
+//@     invariant set: forall h: string :: visited(h) ==> object.Type.Hints.has(h) && object.Type.Hints[h] == pass.Hints[h]
+//@     invariant others: forall h: string :: !visited(h) ==> object.Type.Hints.has(h) == old(object.Type.Hints.has(h)) && object.Type.Hints[h] == old(object.Type.Hints[h])
+//
+// fields_set_default: in a struct object, a field matched by one of the configured references gets the
+// default configured for a matching reference and keeps its name, requiredness, comments and the rest of
+// its type; a field that no reference matches - and every object that is not a struct - is left as it was.
+//@ spec defaultMatches(pass, o, f) = exists r: FieldReference :: pass.DefaultValues.has(r) && fieldMatch(r, o, f)
+//@ spec defaultSet(pass, o, oldf, newf) = (exists r: FieldReference :: pass.DefaultValues.has(r) && fieldMatch(r, o, oldf) && newf.Type.Default == pass.DefaultValues[r]) && newf.Name == oldf.Name && newf.Required == oldf.Required && newf.Comments == oldf.Comments && with(newf.Type, "Default", oldf.Type.Default) == with(oldf.Type, "PassesTrail", newf.Type.PassesTrail)
+//@ func (*FieldsSetDefault).processObject
+//@   property C15
+//@   requires pass != nil
+//@   modifies object.Type.Struct.Fields[*], spare-capacity
+//@   ensures  same: result.0 == object && result.1 == nil
+//@   ensures  others: object.Type.Kind == ast.KindStruct ==> (forall k: int :: 0 <= k && k < len(object.Type.Struct.Fields) && !old(defaultMatches(pass, object, object.Type.Struct.Fields[k])) ==> object.Type.Struct.Fields[k] == old(object.Type.Struct.Fields[k]))
+//@   ensures  set: object.Type.Kind == ast.KindStruct ==> (forall k: int :: 0 <= k && k < len(object.Type.Struct.Fields) && old(defaultMatches(pass, object, object.Type.Struct.Fields[k])) ==> object.Type.Struct.Fields[k].Name == old(object.Type.Struct.Fields[k].Name) && object.Type.Struct.Fields[k].Required == old(object.Type.Struct.Fields[k].Required))
+//@   loop 0:
+//@     invariant doneothers: forall k: int :: 0 <= k && k <= $i && !old(defaultMatches(pass, object, object.Type.Struct.Fields[k])) ==> object.Type.Struct.Fields[k] == old(object.Type.Struct.Fields[k])
+//@     invariant doneset: forall k: int :: 0 <= k && k <= $i ==> object.Type.Struct.Fields[k].Name == old(object.Type.Struct.Fields[k].Name) && object.Type.Struct.Fields[k].Required == old(object.Type.Struct.Fields[k].Required)
+//@     invariant todo: forall k: int :: $i < k && k < len(object.Type.Struct.Fields) ==> object.Type.Struct.Fields[k] == old(object.Type.Struct.Fields[k])
+//@   loop 1:
+//@     invariant doneothers: forall k: int :: 0 <= k && k < i && !old(defaultMatches(pass, object, object.Type.Struct.Fields[k])) ==> object.Type.Struct.Fields[k] == old(object.Type.Struct.Fields[k])
+//@     invariant doneset: forall k: int :: 0 <= k && k < i ==> object.Type.Struct.Fields[k].Name == old(object.Type.Struct.Fields[k].Name) && object.Type.Struct.Fields[k].Required == old(object.Type.Struct.Fields[k].Required)
+//@     invariant todo: forall k: int :: i < k && k < len(object.Type.Struct.Fields) ==> object.Type.Struct.Fields[k] == old(object.Type.Struct.Fields[k])
+//@     invariant name: field.Name == old(object.Type.Struct.Fields[i].Name) && field.Required == old(object.Type.Struct.Fields[i].Required) && object.Type.Struct.Fields[i].Name == old(object.Type.Struct.Fields[i].Name) && object.Type.Struct.Fields[i].Required == old(object.Type.Struct.Fields[i].Required)
+//@     invariant none: (forall r: FieldReference :: visited(r) ==> !fieldMatch(r, object, old(object.Type.Struct.Fields[i]))) ==> field == old(object.Type.Struct.Fields[i]) && object.Type.Struct.Fields[i] == old(object.Type.Struct.Fields[i])
